@@ -124,6 +124,10 @@ def pool():
     P["pal12_b"] = {"kind": "table", "df": tagged(3, 4), "body": {"text_color": [palB[0:4], palB[4:8], palB[8:12]],
                                                                   "text_background_color": palB[12]},
                     "footnote": {"text": "FN0", "text_color": "coral"}}
+    # the default colour spelled out ("black") next to real colours
+    P["blk_a"] = {"kind": "table", "df": tagged(3, 3), "body": {"text_color": ["black", "red", "black"],
+                                                                "text_background_color": [["", "black", "wheat"]]},
+                  "title": {"text": "TT0", "text_color": "black"}}
     long_text = {"name": "N3", "dtype": "str", "values": ["lorem ipsum dolor sit amet consectetur " * 2] * 20}
     P["paged_s8"] = {"kind": "table", "df": tagged(20, 3, extra=[long_text]), "body": {"text_font_size": 8},
                      "page": {"nrow": 12}, "title": TT, "footnote": FN}
@@ -134,6 +138,29 @@ def pool():
 
 POOL = pool()
 NAMES = sorted(POOL)
+TEXT_COMPONENTS = ["title", "subline", "footnote", "source", "page_header", "page_footer"]
+
+
+def edited_variant(spec):
+    """the same document with other texts / text attributes in its text components: what the document object
+    looks like BEFORE its components are edited in place into the pool document's values"""
+    import copy
+    v = copy.deepcopy(spec)
+    touched = False
+    for k in TEXT_COMPONENTS:
+        c = v.get(k)
+        if isinstance(c, dict) and c.get("text"):
+            t = c["text"]
+            c["text"] = ["ALT " + x + " x^2 >= y_1" for x in t] if isinstance(t, list) else "ALT " + t + " x^2 >= y_1"
+            c["text_convert"] = not c.get("text_convert", k in ("title", "footnote", "source"))
+            c["text_color"] = "orchid" if c.get("text_color") != "orchid" else "peru"
+            c["text_font_size"] = 13
+            touched = True
+    return v if touched else None
+
+
+EDITS = {n: edited_variant(POOL[n]) for n in NAMES}
+EDITS = {n: v for n, v in EDITS.items() if v is not None}
 
 
 # ---------------------------------------------------------------- baselines
@@ -207,7 +234,20 @@ def all_histories(maxlen, share_modes=(False, True)):
                     yield {"prior": [list(p) for p in prior], "target": tgt, "share": sh}
 
 
+def edit_histories():
+    """the target object is first built and encoded with other texts, then its text components are edited in
+    place (nested attribute assignment) to the pool document's values"""
+    for tgt in sorted(EDITS):
+        for op in ("enc", "enc2"):
+            yield {"prior": [], "target": tgt, "share": False, "edit": op}
+        yield {"prior": [[tgt, "enc"]], "target": tgt, "share": False, "edit": "enc"}
+
+
 def random_history(rng):
+    if rng.random() < 0.12:
+        L = rng.choice([0, 1, 2])
+        return {"prior": [[rng.choice(NAMES), rng.choice(OPS)] for _ in range(L)], "target": rng.choice(sorted(EDITS)),
+                "share": False, "edit": rng.choice(["enc", "enc2", "new"])}
     L = rng.choice([2, 3, 3, 4, 4])
     prior = [[rng.choice(NAMES), rng.choice(OPS)] for _ in range(L)]
     if rng.random() < 0.5:
@@ -221,10 +261,11 @@ def random_history(rng):
 def plan(tier, seed):
     base = fresh_baselines()
     if tier == "quick":
-        enum = list(all_histories(1))
+        enum = list(all_histories(1)) + list(edit_histories())
         nrand = 1400
     else:
         enum = list(all_histories(1)) + [h for h in all_histories(2, share_modes=(False,)) if len(h["prior"]) == 2]
+        enum += list(edit_histories())
         nrand = 40000
     k = 16
     descs = []
@@ -262,9 +303,9 @@ def run_history(h, baselines):
             return False
         return all(d.equals(s, null_equal=True) and dict(d.schema) == sch for d, (s, sch) in zip(dfs, snap))
 
-    def construct(name, share):
+    def construct(name, share, spec=None):
         sub = tempfile.mkdtemp(dir=td)
-        kw = S.build_components(POOL[name], sub)
+        kw = S.build_components(spec or POOL[name], sub)
         shared = []
         if share:
             for pname, pkw, _ in reversed(built):
@@ -314,7 +355,19 @@ def run_history(h, baselines):
                         problems.append({"what": f"second encode of {name} differs from the first", "mech": None})
         name = h["target"]
         try:
-            doc, shared_any = construct(name, h.get("share"))
+            doc, shared_any = construct(name, h.get("share"), EDITS[name] if h.get("edit") else None)
+            if h.get("edit"):
+                for _ in range({"new": 0, "enc": 1, "enc2": 2}[h["edit"]]):
+                    encode(doc, name, "encode before the edit")
+                # edit the text components in place, field by field, to the pool document's own values
+                fresh = S.build_components(POOL[name], tempfile.mkdtemp(dir=td))
+                for k in TEXT_COMPONENTS:
+                    cur, new = getattr(doc, "rtf_" + k, None), fresh.get("rtf_" + k)
+                    if cur is None or new is None or type(cur) is not type(new):
+                        continue
+                    for f in type(new).model_fields:
+                        setattr(cur, f, getattr(new, f))
+                    counts["edited"] = counts.get("edited", 0) + 1
         except Exception as e:  # noqa
             problems.append({"what": f"constructing target {name} raised {type(e).__name__}: {str(e)[:80]}",
                              "mech": None, "shared": True})
@@ -406,6 +459,9 @@ def judge(ctx, h, res):
         return
     ctx.count("targets_compared")
     ctx.count("encodes_observed", res["counts"]["encodes"])
+    if res["counts"].get("edited"):
+        ctx.count("components_edited_in_place", res["counts"]["edited"])
+        ctx.count("edit_in_place_histories")
     ctx.count("df_snapshots_compared", res["counts"]["df_cmp"])
     if res.get("shared"):
         ctx.count("shared_component_histories")
